@@ -164,4 +164,48 @@ example : convertMut exMapsRev 2 (.ins ['T', 'T']) = some (105, .ins ['A', 'A'])
 example : orient (-1) (applyGenome exMapsRev 105 (.ins ['A', 'A'])) = applyRefseq exSeq 2 (.ins ['T', 'T']) := by decide +kernel
 end Example
 
+
+/-- the loader refuses variants whose replaced bases are not contiguous on the genome
+(regenerated from `process_mutation`; found by this check, repaired in the repository) -/
+theorem loader_checks_contiguity : Const.LOADER_CHECKS_CONTIGUITY = true := by decide
+
+/-- **loaded_span_contiguous** every variant the loader accepts replaces reference bases that
+occupy consecutive genome positions: a variant that spans an insertion or deletion of the
+RefSeq-to-genome alignment is not loaded on that build -/
+theorem loaded_span_contiguous (m : Maps) (pos1 : Int) (k : VKind) (g : Int) (k' : VKind)
+    (h : convertMut m pos1 k = some (g, k')) :
+    ∀ i, i < spanLen k' →
+      m.refToChr ((if m.strand < 0 then (convertRev pos1 k).1 else pos1) - 1 + (i : Int) * m.strand) = some (g + (i : Int)) := by
+  have hc := loader_checks_contiguity
+  unfold convertMut at h
+  by_cases hs : m.strand < 0
+  · simp only [hs, if_true, hc, Bool.true_and] at h ⊢
+    cases hr : m.refToChr ((convertRev pos1 k).1 - 1) with
+    | none => simp [hr] at h
+    | some g0 =>
+      simp only [hr, Option.bind_some] at h
+      split at h
+      · cases h
+      · rename_i hcont
+        simp only [Option.some.injEq, Prod.mk.injEq] at h
+        obtain ⟨rfl, rfl⟩ := h
+        simp only [Bool.not_eq_true', Bool.not_eq_false] at hcont
+        intro i hi
+        have := (List.all_eq_true.mp hcont) i (List.mem_range.mpr hi)
+        simpa using this
+  · simp only [hs, if_false, hc, Bool.true_and] at h ⊢
+    cases hr : m.refToChr (pos1 - 1) with
+    | none => simp [hr] at h
+    | some g0 =>
+      simp only [hr, Option.bind_some] at h
+      split at h
+      · cases h
+      · rename_i hcont
+        simp only [Option.some.injEq, Prod.mk.injEq] at h
+        obtain ⟨rfl, rfl⟩ := h
+        simp only [Bool.not_eq_true', Bool.not_eq_false] at hcont
+        intro i hi
+        have := (List.all_eq_true.mp hcont) i (List.mem_range.mpr hi)
+        simpa using this
+
 end Aldy
